@@ -51,6 +51,13 @@ def plan(rng, tier):
     dom = Domain(cfg["dom"])
     g = common.Gen(rng, dom, cfg["kind"])
     g.p_bad = 0.03
+    g.p_byvalue = 0.015
+    if cfg["dom"]["fam"][1] == "F" and rng.random() < 0.3:
+        cfg["dom"]["vnan"] = True       # NaN among the values
+        dom = Domain(cfg["dom"])
+        g = common.Gen(rng, dom, cfg["kind"])
+        g.p_bad = 0.03
+        g.p_byvalue = 0.015
     n = rng.randint(20, 80) if tier == "quick" else rng.choice(
         [30, 60, 120, 250, 400])
     if cfg["leaf"] is None:
